@@ -67,6 +67,30 @@ def ordered {K V : Type} [DecidableEq K] [DecidableEq V] (cmp : K → K → Orde
             | none => oob
           | none => oob
         | _, _ => bad
+      -- `d = { {k1, d[j1]}, {k2, d[j2]}, … }` (Dic::operator=(initializer_list<KV>), as repaired by 8e6a06f): the
+      -- values are read (non-const operator[], left to right) from the map as it is, the new contents are built in a
+      -- separate map with `t[k] = v` in order, and the map takes that storage
+      | "initasg", kjs =>
+        let rec pairs : List String → Option (List (K × K))
+          | [] => some []
+          | k :: j :: r => match kc.parse k, kc.parse j, pairs r with
+            | some k, some j, some t => some ((k, j) :: t)
+            | _, _, _ => none
+          | [_] => none
+        match pairs kjs with
+        | none => bad
+        | some ps =>
+          if ps.length = 0 ∨ ps.length > 3 then bad else
+          let r := ps.foldl (fun (acc : Option (List (K × V) × List (K × V))) kj => match acc with
+            | none => none
+            | some (cur, out) => match Map.index cmp cur kj.2 dflt with
+              | some (cur', p) => some (cur', out ++ [(kj.1, (cur'[p]?.map (·.2)).getD dflt)])
+              | none => none) (some (a, []))
+          match r with
+          | none => oob
+          | some (_, kvs) => match Map.add cmp dflt [] kvs with
+            | some a' => (sl.set! i a', s!"ok {a'.length}")
+            | none => oob
       | "cidx", [k] => match kc.parse k with
         | some k => match Map.get cmp a k dflt with
           | some v => (sl, s!"{vc.shw v} {a.length}")
